@@ -34,8 +34,35 @@ def wrap(body, q, prefix=''):
     return prefix + q + body + q
 
 
+def decode_simple(body):
+    """Decode the small escape vocabulary used by the multi-literal family (reference decoder)."""
+    out, i = [], 0
+    while i < len(body):
+        c = body[i]
+        if c != '\\':
+            out.append(c)
+            i += 1
+            continue
+        n = body[i + 1]
+        if n in SIMPLE:
+            out.append(chr(SIMPLE[n]))
+            i += 2
+        elif n in 'xX':
+            out.append(chr(int(body[i + 2:i + 4], 16)))
+            i += 4
+        elif n == 'u':
+            out.append(chr(int(body[i + 2:i + 6], 16)))
+            i += 6
+        elif n in '0123':
+            out.append(chr(int(body[i + 1:i + 4], 8)))
+            i += 4
+        else:
+            raise ValueError(body)
+    return ''.join(out)
+
+
 def units(tier, seed):
-    us = [('x',), ('oct',), ('simple',), ('U',), ('raw',), ('bytes',), ('invalid',), ('f1',), ('f2',)]
+    us = [('x',), ('oct',), ('simple',), ('U',), ('raw',), ('bytes',), ('invalid',), ('f1',), ('f2',), ('pairs',), ('multi',)]
     step = 8 if tier == 'quick' else 1
     nchunks = 8 if tier == 'quick' else 32
     per = 65536 // nchunks
@@ -291,6 +318,51 @@ def run_unit(unit, drv, res, seed, tier):
                 items.append((wrap('y' + esc + 'z', q), 'reject', 'malformed escape'))
                 items.append((wrap(esc, q, 'b'), 'reject', 'malformed escape in a bytes literal'))
         res.exhaustive_done['malformed-escapes'] = True
+    elif kind == 'pairs':
+        # two adjacent escapes: each denotes its own code point; a surrogate stays invalid next to another one
+        his = [0xd800, 0xd83d, 0xdbff, 0xda00]
+        los = [0xdc00, 0xde00, 0xdfff]
+        for q in QUOTES:
+            for h in his:
+                for l in los:
+                    items.append((wrap('\\u%04x\\u%04x' % (h, l), q), 'reject', 'adjacent surrogate escapes'))
+                    items.append((wrap('\\u%04X\\u%04X' % (l, h), q), 'reject', 'adjacent surrogate escapes'))
+                    items.append((wrap('a\\u%04x\\u%04xb' % (h, l), q), 'reject', 'adjacent surrogate escapes'))
+                items.append((wrap('\\u%04xA' % h, q), 'reject', 'surrogate \\u escape'))
+                items.append((wrap('\\U%08x\\U%08x' % (h, 0xdc00), q), 'reject', 'adjacent surrogate escapes'))
+            for a, b in [(0x41, 0x42), (0xe9, 0x301), (0xffff, 0x10000), (0x1f600, 0x1f600), (0xd7ff, 0xe000), (0x22, 0x27), (0x5c, 0x6e)]:
+                ea = ('\\u%04x' % a) if a <= 0xffff else ('\\U%08x' % a)
+                eb = ('\\u%04x' % b) if b <= 0xffff else ('\\U%08x' % b)
+                items.append((wrap(ea + eb, q), ('ok', S(chr(a) + chr(b))), 'adjacent escapes'))
+                items.append((wrap('\\x%02x\\%03o' % (a & 0xff, b & 0xff), q), ('ok', S(chr(a & 0xff) + chr(b & 0xff))), 'adjacent escapes'))
+        res.exhaustive_done['adjacent-escapes'] = True
+    elif kind == 'multi':
+        # several literals in one program (a per-parse cache or shared buffer must not mix them up): the same
+        # quoted text as raw, non-raw and bytes literal side by side, in every order
+        bodies = ['a\\tb', '\\x41', '\\\\d+', '\\u00e9', '\\101', 'plain', '\\n\\n', 'q\\?']
+        import itertools as _it
+        from celmodel.values import L as _L
+        for body in bodies:
+            for q in QUOTES:
+                forms = [(wrap(body, q), decode_simple(body)), (wrap(body, q, 'r'), body), (wrap(body, q, 'R'), body)]
+                other_q = QUOTES[(QUOTES.index(q) + 1) % 4]
+                forms.append((wrap(body, other_q), decode_simple(body)))
+                for perm in _it.permutations(forms, 2):
+                    src = '[' + ', '.join(f[0] for f in perm) + ']'
+                    items.append((src, ('ok', _L([S(f[1]) for f in perm])), 'several literals in one program'))
+                    items.append((perm[0][0] + ' + ' + perm[1][0], ('ok', S(perm[0][1] + perm[1][1])), 'several literals in one program'))
+                    items.append((perm[0][0] + ' == ' + perm[1][0], ('ok', ('b', perm[0][1] == perm[1][1])), 'several literals in one program'))
+                # bytes next to strings of the same text
+                bts = [(wrap(body, q, 'b'), decode_simple(body).encode('latin-1') if all(ord(c) < 256 for c in decode_simple(body)) and '\\u' not in body else None),
+                       (wrap(body, q, 'br'), body.encode())]
+                for bsrc, bval in bts:
+                    if bval is None:
+                        continue
+                    items.append(('[' + wrap(body, q) + ', ' + bsrc + ', ' + wrap(body, q, 'r') + ']',
+                                  ('ok', _L([S(decode_simple(body)), Y(bval), S(body)])), 'several literals in one program'))
+                    items.append(('[' + bsrc + ', ' + wrap(body, q, 'r') + ', ' + wrap(body, q) + ']',
+                                  ('ok', _L([Y(bval), S(body), S(decode_simple(body))])), 'several literals in one program'))
+        res.exhaustive_done['several-literals-per-program'] = True
     elif kind == 'f1':
         # the escape of the *other* quote character (known finding family, kept separate and exact)
         for q in QUOTES:
